@@ -166,15 +166,19 @@ func (v *Vue) Render(w io.Writer, filename string, data any) error {
 func (v *Vue) loadCachedWithFrontMatter(filename string) (map[string]any, []*html.Node, error) {
 	// Get current file modification time
 	var currentModTime time.Time
+	statFailed := false
 	if v.templateFS != nil {
 		if info, err := fs.Stat(v.templateFS, filename); err == nil {
 			currentModTime = info.ModTime()
+		} else {
+			// the file is gone (or unreadable): never answer from the cache, let the load report it
+			statFailed = true
 		}
 	}
 
 	v.templateMu.RLock()
 	cached, ok := v.templateCache[filename]
-	if ok && (currentModTime.IsZero() || cached.modTime.Equal(currentModTime)) {
+	if ok && !statFailed && (currentModTime.IsZero() || cached.modTime.Equal(currentModTime)) {
 		// Cache hit and file hasn't changed (or we can't check mtime)
 		v.templateMu.RUnlock()
 		return cached.frontMatter, cached.dom, nil
